@@ -15,6 +15,7 @@ import (
 	"strings"
 
 	"golang.org/x/tools/go/packages"
+	"golang.org/x/tools/go/ssa"
 	"golang.org/x/tools/go/types/typeutil"
 )
 
@@ -206,6 +207,7 @@ func reflectTypeForArg(info *types.Info, e ast.Expr) types.Type {
 }
 
 func findPkgVarLit(pk *packages.Package, name string) (*ast.CompositeLit, token.Pos) {
+	name = curVarName(pk.PkgPath, name)
 	for _, f := range pk.Syntax {
 		for _, d := range f.Decls {
 			gd, ok := d.(*ast.GenDecl)
@@ -398,7 +400,7 @@ func BuildRegistry(p *Program) *Registry {
 				return true
 			}
 			id, ok := rs.X.(*ast.Ident)
-			if !ok || id.Name != "tagNames" || root.TypesInfo.Uses[id] == nil || root.TypesInfo.Uses[id].Parent() != root.Types.Scope() {
+			if !ok || id.Name != curVarName(root.PkgPath, "tagNames") || root.TypesInfo.Uses[id] == nil || root.TypesInfo.Uses[id].Parent() != root.Types.Scope() {
 				return true
 			}
 			k, _ := rs.Key.(*ast.Ident)
@@ -483,89 +485,145 @@ func BuildRegistry(p *Program) *Registry {
 	return reg
 }
 
-// probe re-checks, structurally on the current source, what the model assumes
-// the Register* functions do.
+// probe re-checks, on the SSA of the current source, what the model assumes the Register* functions do: which
+// package-level maps they update, with which of their parameters as key and value. Globals and parameters are
+// identified by role (type, position), not by name.
 func (reg *Registry) probe(p *Program) {
-	tt := p.Pkg("ttlv")
-	if tt == nil {
+	if p.Pkg("ttlv") == nil {
 		reg.Problems = append(reg.Problems, "package ttlv not loaded")
 		return
 	}
-	// assignments of the form  M[k] = v  or  M[k1][k2] = v  inside function fn
-	type asg struct{ m, keys, val string }
-	collect := func(fn string) []asg {
-		fd := p.FuncDecl("ttlv", "", fn)
-		if fd == nil {
-			reg.Problems = append(reg.Problems, "anchor missing: ttlv."+fn)
+	type upd struct{ mapT, key, val string }
+	collect := func(rel, fn string) []upd {
+		sf := p.Func(rel, "", fn)
+		if sf == nil || sf.Blocks == nil {
+			reg.Problems = append(reg.Problems, "anchor missing: "+rel+"."+fn)
 			return nil
 		}
-		var out []asg
-		ast.Inspect(fd.Body, func(n ast.Node) bool {
-			as, ok := n.(*ast.AssignStmt)
-			if !ok || len(as.Lhs) != 1 || len(as.Rhs) != 1 || as.Tok != token.ASSIGN {
-				return true
+		// origin of a value in terms of the function's parameters
+		var origin func(v ssa.Value, d int) string
+		origin = func(v ssa.Value, d int) string {
+			if d > 6 {
+				return "?"
 			}
-			ix, ok := as.Lhs[0].(*ast.IndexExpr)
+			switch x := v.(type) {
+			case *ssa.Parameter:
+				for i, prm := range sf.Params {
+					if prm == x {
+						return fmt.Sprintf("param#%d", i)
+					}
+				}
+			case *ssa.Convert:
+				return origin(x.X, d+1)
+			case *ssa.ChangeType:
+				return origin(x.X, d+1)
+			case *ssa.MakeInterface:
+				return origin(x.X, d+1)
+			case *ssa.ChangeInterface:
+				return origin(x.X, d+1)
+			case *ssa.Extract:
+				if nx, ok := x.Tuple.(*ssa.Next); ok {
+					if rg, ok := nx.Iter.(*ssa.Range); ok {
+						return fmt.Sprintf("range(%s)#%d", origin(rg.X, d+1), x.Index)
+					}
+				}
+				return origin(x.Tuple, d+1)
+			case *ssa.UnOp:
+				if x.Op == token.MUL {
+					if ia, ok := x.X.(*ssa.IndexAddr); ok {
+						return "elem(" + origin(ia.X, d+1) + ")"
+					}
+				}
+				return origin(x.X, d+1)
+			case *ssa.BinOp:
+				if x.Op == token.SHL {
+					if k, ok := constIntVal(x.X); ok && k == 1 {
+						y := x.Y
+						if cv, ok := y.(*ssa.Convert); ok {
+							y = cv.X
+						}
+						// the loop index: the induction phi or its increment
+						if _, isPhi := y.(*ssa.Phi); isPhi {
+							return "1<<index"
+						}
+						if add, ok := y.(*ssa.BinOp); ok && add.Op == token.ADD {
+							if _, isPhi := add.X.(*ssa.Phi); isPhi {
+								return "1<<index"
+							}
+						}
+					}
+				}
+			case *ssa.Call:
+				id := callID(&x.Call)
+				if id.pkg == "reflect" && id.name == "TypeFor" {
+					return "typefor"
+				}
+				if id.pkg == "reflect" && id.name == "Elem" && len(x.Call.Args) == 1 {
+					return "elem-type(" + origin(x.Call.Args[0], d+1) + ")"
+				}
+				if id.pkg == "reflect" && id.name == "TypeOf" && len(x.Call.Args) == 1 {
+					return "typeof(" + origin(x.Call.Args[0], d+1) + ")"
+				}
+				if x.Call.IsInvoke() && x.Call.Method.Name() == "Elem" {
+					return "elem-type(" + origin(x.Call.Value, d+1) + ")"
+				}
+				if strings.HasPrefix(id.pkg, modPath) {
+					return "call:" + id.name
+				}
+			case *ssa.Slice:
+				return origin(x.X, d+1)
+			}
+			return "?"
+		}
+		var out []upd
+		allInstrs(sf, func(in ssa.Instruction) {
+			mu, ok := in.(*ssa.MapUpdate)
 			if !ok {
-				return true
+				return
 			}
-			keys := []string{types.ExprString(ix.Index)}
-			base := ix.X
-			if ix2, ok := base.(*ast.IndexExpr); ok {
-				keys = append([]string{types.ExprString(ix2.Index)}, keys...)
-				base = ix2.X
+			// the map: a package-level map, or an element of a package-level map of maps
+			m := mu.Map
+			mt := ""
+			if lk, ok := m.(*ssa.Lookup); ok {
+				if g := globalRoot(lk.X, 0); g != nil {
+					mt = types.TypeString(lk.X.Type(), func(*types.Package) string { return "" }) + "[" + origin(lk.Index, 0) + "]"
+				}
+			} else if g := globalRoot(m, 0); g != nil {
+				mt = types.TypeString(m.Type(), func(*types.Package) string { return "" })
 			}
-			id, ok := base.(*ast.Ident)
-			if !ok {
-				return true
+			if mt == "" {
+				return
 			}
-			out = append(out, asg{id.Name, strings.Join(keys, ","), types.ExprString(as.Rhs[0])})
-			return true
+			out = append(out, upd{mt, origin(mu.Key, 0), origin(mu.Value, 0)})
 		})
 		return out
 	}
-	has := func(as []asg, m, keys, val string) bool {
-		for _, a := range as {
-			if a.m == m && a.keys == keys && a.val == val {
-				return true
+	need := func(fn string, us []upd, n int, mapT, key, val, what string) {
+		c := 0
+		for _, u := range us {
+			if u.mapT == mapT && u.key == key && u.val == val {
+				c++
 			}
 		}
-		return false
-	}
-	need := func(fn string, as []asg, m, keys, val string) {
-		if !has(as, m, keys, val) {
-			reg.Problems = append(reg.Problems, fmt.Sprintf("model probe failed: ttlv.%s no longer contains `%s[%s] = %s`", fn, m, strings.ReplaceAll(keys, ",", "]["), val))
+		if c < n {
+			reg.Problems = append(reg.Problems, fmt.Sprintf("model probe failed: %s no longer records %s (expected %d update(s) of a package-level %s with key %s and value %s, found %d)", fn, what, n, mapT, key, val, c))
 		}
 	}
-	a := collect("RegisterTag")
-	need("RegisterTag", a, "tagByName", "name", "value")
-	need("RegisterTag", a, "tagNames", "value", "name")
-	a = collect("RegisterEnum")
-	need("RegisterEnum", a, "enums", "ty", "tag")
-	need("RegisterEnum", a, "tagByType", "ty", "tag")
-	need("RegisterEnum", a, "enumNames", "tag,uint32(enum)", "name")
-	need("RegisterEnum", a, "enumsByName", "tag,name", "uint32(enum)")
-	a = collect("RegisterBitmask")
-	need("RegisterBitmask", a, "tagByType", "ty", "tag")
-	need("RegisterBitmask", a, "bitmaskNames", "tag", "names")
-	need("RegisterBitmask", a, "bitmaskByName", "tag,name", "1 << i")
-	// kmip.RegisterOperationPayload: operationRegistry[op] = typeForOperation[Req, Resp]()
-	if fd := p.FuncDecl("", "", "RegisterOperationPayload"); fd != nil {
-		ok := false
-		ast.Inspect(fd.Body, func(n ast.Node) bool {
-			if as, isAs := n.(*ast.AssignStmt); isAs && len(as.Lhs) == 1 {
-				if types.ExprString(as.Lhs[0]) == "operationRegistry[op]" && strings.HasPrefix(types.ExprString(as.Rhs[0]), "typeForOperation[Req, Resp]") {
-					ok = true
-				}
-			}
-			return true
-		})
-		if !ok {
-			reg.Problems = append(reg.Problems, "model probe failed: kmip.RegisterOperationPayload no longer stores typeForOperation[Req, Resp]() at operationRegistry[op]")
-		}
-	} else {
-		reg.Problems = append(reg.Problems, "anchor missing: kmip.RegisterOperationPayload")
-	}
+	a := collect("ttlv", "RegisterTag")
+	need("ttlv.RegisterTag", a, 1, "map[string]int", "param#0", "param#1", "name -> tag")
+	need("ttlv.RegisterTag", a, 1, "map[int]string", "param#1", "param#0", "tag -> name")
+	a = collect("ttlv", "RegisterEnum")
+	need("ttlv.RegisterEnum", a, 2, "map[Type]int", "typefor", "param#0", "the enumeration type -> tag (enum set and default tag)")
+	need("ttlv.RegisterEnum", a, 1, "map[int]map[uint32]string[param#0]", "range(param#1)#1", "range(param#1)#2", "value -> name under the tag")
+	need("ttlv.RegisterEnum", a, 1, "map[int]map[string]uint32[param#0]", "range(param#1)#2", "range(param#1)#1", "name -> value under the tag")
+	a = collect("ttlv", "RegisterBitmask")
+	need("ttlv.RegisterBitmask", a, 2, "map[Type]int", "typefor", "param#0", "the mask type -> tag (mask set and default tag)")
+	need("ttlv.RegisterBitmask", a, 1, "map[int][]string", "param#0", "param#1", "tag -> flag names in bit order")
+	need("ttlv.RegisterBitmask", a, 1, "map[int]map[string]int32[param#0]", "elem(param#1)", "1<<index", "flag name -> bit under the tag")
+	a = collect("", "RegisterOperationPayload")
+	need("kmip.RegisterOperationPayload", a, 1, "map[Operation]operationPayloadTypes", "param#0", "call:typeForOperation", "operation -> payload types")
+	a = collect("", "RegisterObject")
+	need("kmip.RegisterObject", a, 1, "map[ObjectType]Type", "param#0", "elem-type(typeof(param#1))", "object type -> struct type")
 }
 
 // EnumForType returns the registration of a named uint32 type, or nil.
